@@ -16,6 +16,12 @@ use aranya_runtime::{
 
 static FAIL_AT: AtomicI64 = AtomicI64::new(-1);
 static FETCHES: AtomicI64 = AtomicI64::new(0);
+static FAIL_COMMIT: AtomicI64 = AtomicI64::new(0);
+
+/// Make the next `Write::commit` (the head-set write of the backend) fail once.
+pub fn fail_next_commit(on: bool) {
+    FAIL_COMMIT.store(i64::from(on), Ordering::SeqCst);
+}
 
 /// Fail the k-th fetch from now (k = 0: the next one); `None` disables.
 pub fn fail_nth_fetch(k: Option<i64>) {
@@ -99,6 +105,9 @@ impl Write for Writer {
         Ok(item)
     }
     fn commit(&mut self, heads: &HeadSet, fact_cache: FactCacheOffset) -> Result<(), StorageError> {
+        if FAIL_COMMIT.swap(0, Ordering::SeqCst) == 1 {
+            return Err(StorageError::IoError);
+        }
         let offset = self.committed.as_ref().map_or(0, |c| c.offset + 1);
         self.committed = Some(Committed { heads: heads.clone(), fact_cache, offset });
         Ok(())
